@@ -307,9 +307,10 @@ h("ki8_sync", I + "/ki8_entry.rs", "inflate::verif_kani::ki8_entry", ["C16", "C0
   bounds="0..=6 symbolic input bytes, bit register empty / 5 stray bits / one whole symbolic byte, any wrap, header seen or not; reference scan for 00 00 FF FF in the harness")
 
 # ---------------------------------------------------------------- inflateBack
-def KB1_US(main, body="back_instance"):
-    return [("infback::back", None, 3), ("infback::back", 0, main),
+def KB1_US(main, body="back_instance", inner=3):
+    return [("infback::back", None, inner), ("infback::back", 0, main),
             ("infback::back", ("zlib-rs/src/inflate/infback.rs", "for _ in 0..copy {"), 5),
+            ("infback::back", ("zlib-rs/src/inflate/infback.rs", "while usize::from(bits) < $n {"), 5),
             ("kb1_back::" + body, None, 14)]
 
 
@@ -332,7 +333,7 @@ for _d in range(8):
 
 for _d in (0, 4, 14, 15, 16):
     h("kb1_back_wrapped_d%d" % _d, I + "/kb1_back.rs", "inflate::verif_kani::kb1_back", ["C19"],
-      kernel="KB1", tier="quick" if _d in (15, 16) else "thorough", expect_s=200, timeout=1800, weight=2, mem_gb=16, unwindset=KB1_US(10, "back_wrapped_instance"),
+      kernel="KB1", tier="quick" if _d in (15, 16) else "thorough", expect_s=200, timeout=1800, weight=2, mem_gb=16, unwindset=KB1_US(8, "back_wrapped_instance", inner=2),
       functions=["inflate::infback::back (Stored copy, window flush through the output callback, Len, too-far check after the window wrapped, ring copy)"],
       bounds="windowBits 8; concrete input: non-final stored block of exactly 256 bytes (fills and flushes the window), final fixed block with 1 literal, "
              "length-3 code, distance code %d; then ceil(extra/8) symbolic bytes (all extra-bit values); distances <= 256 must be accepted and copy from the ring" % _d,
